@@ -75,7 +75,9 @@ func c11OnScreen(cs []tcue, t2 int64) string {
 	return fmt.Sprint(ks)
 }
 
-func c11Check(cs []tcue) string {
+func c11Check(cs []tcue) string { return c11Check2(cs, false) }
+
+func c11Check2(cs []tcue, warm bool) string {
 	sub := astisub.NewSubtitles()
 	snaps := make([]string, len(cs))
 	for k, c := range cs {
@@ -88,10 +90,16 @@ func c11Check(cs []tcue) string {
 			}
 		}
 		it.Index = k
+		decorate(it, k)
 		sub.Items = append(sub.Items, it)
 		snaps[k] = snapItem(it)
 	}
 	ptrs := append([]*astisub.Item(nil), sub.Items...)
+	if warm {
+		if p := guard(func() { prewarm(sub) }); p != "" {
+			return p
+		}
+	}
 	if p := guard(func() { sub.Unfragment() }); p != "" {
 		return p
 	}
@@ -193,12 +201,33 @@ func c11Decode(idx int64) []tcue {
 	return cs
 }
 
+// c11Colliding: pairs of distinct texts with the same FNV-1 / FNV-1a / Adler-32 / CRC-32 / 31- and 33-multiplier hash
+// (found by a birthday search over 400 000 six-letter strings, frozen here; the last ones are well-known pairs)
+var c11Colliding = [][2]string{
+	{"lbbzls", "ebslxk"}, {"iedply", "beubxq"}, {"ihgtdj", "bhxfpb"}, // adler32
+	{"mkgmmj", "lkyhhq"}, {"arbvyf", "dsjhfs"}, {"ylapzz", "cktztd"}, // fnv32
+	{"dkpofy", "ejiirr"}, {"olqflm", "fzvdzq"}, {"mfzois", "ziqpjb"}, {"costarring", "liquid"}, // fnv32a
+	{"plumless", "buckeroo"}, // crc32
+	{"Aa", "BB"}, {"az", "bY"}, // h*31+c, h*33+c
+}
+
 func c11Random(r *fw.Rand) ([]tcue, int64) {
 	n := r.Intn(61)
 	unit := fw.Pick(r, []int64{1, 1000000, 1000000000})
 	texts := []string{"a", "b", "c"}[:r.Range(1, 3)]
 	if r.P(1, 3) {
 		texts = []string{"Hello", "Hello\nworld", "\nHello", "Hello\nworld\nagain"}[:r.Range(2, 4)]
+	}
+	if r.P(1, 8) {
+		// texts that are different but alike to a digest: pairs that collide under the common 32-bit string hashes
+		pair := fw.Pick(r, c11Colliding)
+		texts = []string{pair[0], pair[1]}
+		if r.Bool() {
+			texts = append(texts, "a")
+		}
+	} else if r.P(1, 8) {
+		// texts that differ only in case, in trailing white space, in a combining sequence or in the line split
+		texts = fw.Pick(r, [][]string{{"Hello", "hello"}, {"Hello", "Hello "}, {"\u00e9t\u00e9", "e\u0301te\u0301"}, {"a\nb", "a b", "ab"}, {"a\n", "a"}})
 	}
 	cs := make([]tcue, n)
 	for i := range cs {
@@ -256,7 +285,7 @@ func init() {
 			switch {
 			case c.Idx < g:
 				cs := c11Decode(c.Idx)
-				if msg := c11Check(cs); msg != "" {
+				if msg := c11Check2(cs, c.Idx%4 == 1); msg != "" {
 					return fw.Bad(hashCues(cs), nil, "%s", msg)
 				}
 				for f := int64(1); f <= 5; f++ {
@@ -272,7 +301,7 @@ func init() {
 				return fw.OK(hashCues(cs), map[string]interface{}{"cues": fmtCues(cs)})
 			case c.Idx < g+randomN(c.Tier):
 				cs, unit := c11Random(c.R)
-				if msg := c11Check(cs); msg != "" {
+				if msg := c11Check2(cs, c.Idx%4 == 1); msg != "" {
 					return fw.Bad(hashCues(cs), nil, "%s", msg)
 				}
 				// inverse law on a derived applicable list: the specification's own output, start-ordered
